@@ -290,7 +290,8 @@ Definition sop_okb (s : sworld) (o : op) : bool :=
   | GetFlight _, Some h => nodupb (sids (s_items s h))
   | _, _ => true
   end.
-Definition no_mergeb (o : op) : bool := match o with Merge _ _ _ => false | _ => true end.
+Definition no_mergeb (o : op) : bool :=
+  match o with Merge _ _ _ | Inject _ _ | GetA _ _ => false | _ => true end.
 Fixpoint hist_okb (s : sworld) (ops : list op) : bool :=
   match ops with
   | [] => true
